@@ -23,6 +23,7 @@ class RecSoftmax:
 
 class Bins(SxContract):
     """_infer on a model whose cut_points_list_ covers the unmasked features only."""
+    float_replay = True
     max_paths = 5000
 
     def __init__(self, n, d, K, cuts, mask):
